@@ -147,6 +147,14 @@ def enumerate_cases(tier: str):
                 yield {"version": version, "line": head + inner + "\n", "stream": True}
                 yield {"version": version, "line": head + inner + "\n", "mqtt": True, "mqtt_repeat": True}
                 yield {"version": version, "line": head + inner + "\n", "mqtt": True, "mqtt_repeat": True, "mqtt_prefix": "mygateway1-out"}
+    # odd-but-int()-parsable spellings of the boundary values in every header field, against every command (cross-field rules use the VALUE)
+    for version in ("1.4", "2.2"):
+        for spelled in ("0255", "+255", " 255", "255 ", "2_55", "٢٥٥", "00", "+0", "-0", "0254", "+3", "03", "004", "+4", "１", "0x3"):
+            for pos in range(5):
+                for base in (["1", "255", "1", "0", "2"], ["1", "255", "2", "0", "2"], ["1", "255", "3", "0", "9"], ["1", "5", "3", "0", "3"], ["1", "5", "4", "0", "1"], ["1", "255", "0", "0", "17"], ["255", "0", "1", "1", "0"]):
+                    fields = list(base)
+                    fields[pos] = spelled
+                    yield {"version": version, "line": ";".join(fields) + ";p\n"}
     # format-string metacharacters in one field while another field is out of range / ill-formed (error messages built from the input)
     for version in ("1.4", "2.2"):
         for meta in ("{}", "{0}", "{input}", "{input.x}", "}", "{", "%s", "%(x)s", "%d", "{\"temp\":21}"):
